@@ -7,6 +7,7 @@ CONSTANTS
   ClearOnReadFail = TRUE
   CtxEarly = FALSE
   ClearLate = FALSE
+  SharedExtras = FALSE
   UseLock = TRUE
 INVARIANT CtxClearedWhenIdle
 INVARIANT NoResidue
